@@ -19,6 +19,7 @@ META = {
 
 P = "MjProof.C41."
 THEOREMS = [P + n for n in [
+    "parseString_total",
     "error_line_within_text",
     "validate_ok_iff_wf",
     "accepted_wf",
@@ -131,7 +132,7 @@ class Gen:
         self.counter += 1
         rng = self.rng
         tail = "".join(rng.choice("abcxyzQR_019") for _ in range(rng.randint(0, 3)))
-        return "%s%d%s" % (prefix, self.counter, tail)
+        return "%s%dz%s" % (prefix, self.counter, tail)   # the letter keeps "<n><tail>" unambiguous
 
     def string_body(self):
         rng = self.rng
@@ -1310,9 +1311,9 @@ def gen_inputs(ctx, scale=1.0):
     """Returns list of (stream, text, expected_rule_or_None)."""
     rng = ctx.rng
     thorough = ctx.tier == "thorough"
-    n_valid = int((100000 if thorough else 3000) * scale)
-    n_mut = int((100000 if thorough else 3000) * scale)
-    n_soup = int((100000 if thorough else 3000) * scale)
+    n_valid = int((60000 if thorough else 3000) * scale)
+    n_mut = int((60000 if thorough else 3000) * scale)
+    n_soup = int((60000 if thorough else 3000) * scale)
     n_real = int((3000 if thorough else 150) * scale)
     items = []
     valid_structs = []
@@ -1467,20 +1468,42 @@ def run(ctx):
                 "one-rule mutants of such schemas (44 mutation operators), token and line soups, the real mjcf.schema, the "
                 "pinned tests' snippets and token mutants of both, ~200 directed lexical/semantic edge cases, deep use "
                 "chains; a case is distinct by its full text; non-trivial = more than 6 characters of text")
+    import time
+    phase, t_last = {}, [time.time()]
+
+    def mark(name):
+        now = time.time()
+        phase[name] = round(now - t_last[0], 1)
+        t_last[0] = now
+    ctx.extra["phase_seconds"] = phase
     ctx.lean_props(THEOREMS)
+    mark("lean_props")
     drv = ctx.driver("drv_c41")
+    mark("driver_build")
     if not os.path.exists(os.path.join(common.REPO, "doc", "generate", "mjcf_schema.py")):
         ctx.oblige("anchor doc/generate/mjcf_schema.py exists", "impl-build", False, "file missing in " + common.REPO)
         return
     items = gen_inputs(ctx)
     lines = ["parse " + enc(t) for _, t, _ in items]
+    mark("generate")
     if drv:
         # ---- T: character-class tables of the model vs the running interpreter
         ctx.differential("Unicode \\d / int() digit values / str.isspace tables vs interpreter", [drv], [PY, IMPL, common.REPO],
                          ["classes", "frob 1", "parse \\u{d800}", "parse \\x"], keyf=lambda l: None)
         # ---- T: exact correspondence (schema dump or error line + class)
-        rc, outs, err = run_impl(ctx, lines)
-        ctx.differential("mjcf_schema.parse_string vs Lean model", [drv], [PY, IMPL, common.REPO], lines, keyf=keyf)
+        mark("tables")
+        # the implementation's outputs are captured from the differential run itself (one run of the real code)
+        outs = []
+
+        def cmp(a, b):
+            outs.append(b)
+            return a == b
+        ctx.differential("mjcf_schema.parse_string vs Lean model", [drv], [PY, IMPL, common.REPO], lines, keyf=keyf, cmp=cmp)
+        rc, err = 0, ""
+        if len(outs) != len(lines):   # the harness stopped early: rerun it alone to see how far it gets
+            rc, outs, err = run_impl(ctx, lines)
+            rc = rc or 1
+        mark("differential")
         # ---- S: oracle on the implementation's own output
         if rc == 0 and len(outs) == len(lines):
             n_fail, stats, per_stream, classes = run_oracle(ctx, items, outs)
@@ -1499,16 +1522,19 @@ def run(ctx):
         else:
             ctx.oracle_failure("c41:harness-crash", "python harness stopped (rc=%s) after %d of %d ops" % (rc, len(outs), len(lines)),
                                {"stderr": err[-800:]})
+        mark("oracle")
         # ---- deep `use` chains: the model is total; Python recursion is bounded by the interpreter's limit
         # (both sides are cubic in the chain length just below the limit, so the model is only run on short chains;
         #  for the long ones the expected result is known in closed form)
         deep = []
         thorough = ctx.tier == "thorough"
-        sizes = [50, 300, 1000, 1100, 2000] + ([900, 990, 5000] if thorough else [])
-        for n in sizes:
-            for shape in ("chain", "chain-rev", "chain-cycle"):
-                if shape == "chain-rev" and n >= 1000 and not thorough:
-                    continue
+        plan = {"chain": [50, 300, 1000], "chain-rev": [50, 300], "chain-cycle": [50, 300, 1000, 1100, 2000]}
+        if thorough:
+            plan = {"chain": [50, 300, 900, 990, 1000, 1100, 2000], "chain-rev": [50, 300, 990, 1000, 1100],
+                    "chain-cycle": [50, 300, 990, 1000, 1100, 2000, 5000]}
+        sizes = plan
+        for shape, ns in plan.items():
+            for n in ns:
                 deep.append((n, shape))
         dlines = ["parse " + enc(deep_chain(n, sh)) for n, sh in deep]
         mlim = 1000 if thorough else 400
@@ -1547,12 +1573,15 @@ def run(ctx):
                        not dis, str(dis[:3]))
             ctx.extra["deep_chain_sizes"] = sizes
             ctx.extra["deep_chain_nonschema_exceptions"] = nrec
+        mark("deep_chains")
 
     def directed(c):
         # a proof/tie obligation broke but the oracle found nothing: search harder with the oracle alone
         import random
         c.rng = random.Random(c.seed * 7919 + 41)
+        tier, c.tier = c.tier, "quick"
         more = gen_inputs(c, scale=3.0)
+        c.tier = tier
         rc2, outs2, _ = run_impl(c, ["parse " + enc(t) for _, t, _ in more])
         for (stream, text, rule), out in zip(more, outs2):
             r = oracle(text, out, expect_reject=rule)
